@@ -210,6 +210,29 @@ def run(chk, replay=None):
         if rep == 0:
             samples.append({"scenario": "stale_leader", "history": o["history"][-4:]})
 
+    # ---- writes received by a follower while the leader it routes to is frozen, then dead ----------------
+    for rep in range(1 if tier == "quick" else 3):
+        o = nodescen.scenario_routed_failures(binary, rng)
+        n_eval += 1
+        nontrivial.add(("routed_failures", rep))
+        if o.get("new_leader") is None:
+            chk.notes.setdefault("inconclusive", []).append("routed_failures: no new leader was elected after the leader was killed")
+            continue
+        for f in o.get("fatal", []):
+            chk.classify("storage-fatal", "the Raft core of node %s was shut down by its storage layer: %s" % (f["node"], f["line"]),
+                         {"scenario": "routed_failures", "fatal": f, "history": o["history"]})
+        probs = final_consistent(o)
+        if o["errors"] and not probs:
+            chk.notes.setdefault("inconclusive", []).append({"scenario": "routed_failures", "errors": o["errors"][:3]})
+        for p in probs:
+            chk.classify("routed-failure:%s" % p["kind"],
+                         "writes received by follower %s while the leader %s was frozen / dead: %s" % (o.get("follower"), o.get("leader"), json.dumps(p)[:300]),
+                         {"scenario": "routed_failures", "problem": p, "history": o["history"], "final": o["final"],
+                          "follower_serves_frozen": o.get("follower_serves_frozen"), "follower_serves_killed": o.get("follower_serves_killed")})
+        chk.notes.setdefault("routed_failures_answers", []).append([[h["op"], h["key"], h["status"], h["body"][:20]] for h in o["history"][4:]])
+        if rep == 0:
+            samples.append({"scenario": "routed_failures", "history": o["history"][4:], "final": o["final"]})
+
     # the two worlds the harness can force, against the model of the answer chain
     model_exprs.append("eval_answer true (mkWorld (Some RLocal) true true true Fail true true)")
     model_exprs.append("eval_answer true (mkWorld (Some RLocal) true true true Succ true true)")
